@@ -372,8 +372,10 @@ func newHttpBlock(opts *warcRecordOptions, wf *WarcFields, r io.Reader, blockDig
 	if herr == errMissingEndOfHeaders && opts.fixSyntaxErrors {
 		// Fix header and update content-length field
 		hb = append(hb, '\r', '\n')
-		l, _ := wf.GetInt64(ContentLength)
-		wf.SetInt64(ContentLength, l+2)
+		if wf.Has(ContentLength) {
+			l, _ := wf.GetInt64(ContentLength)
+			wf.SetInt64(ContentLength, l+2)
+		}
 	}
 
 	if _, err := blockDigest.Write(hb); err != nil {
